@@ -35,7 +35,7 @@ type StructResult struct {
 type Plan struct {
 	// BoundedRun: labelled bounded stand-ins (exhaustive runs of the real code within a stated bound) for
 	// functions the contracts cannot reach; reported separately, never counted as proved.
-	BoundedRun  func(outDir string) []BoundedResult
+	BoundedRun  func(outDir, tier string) []BoundedResult
 	LockMode    bool // lock tracking (C20)
 	ID          string
 	Patterns    []string
@@ -344,7 +344,7 @@ func Check(id, tier string, seed int) int {
 	}
 	var boundedEv []map[string]interface{}
 	if p.BoundedRun != nil {
-		for _, br := range p.BoundedRun(outDir) {
+		for _, br := range p.BoundedRun(outDir, tier) {
 			boundedEv = append(boundedEv, map[string]interface{}{"name": br.Name, "bound": br.Bound, "cases": br.Cases, "held": br.OK, "label": "bounded (exhaustive within the bound on the real code; not a proof, not counted in obligations/discharged)"})
 			if k, ok := knownByName[br.Name]; ok {
 				nKnown++
